@@ -9,7 +9,7 @@ enum Oracle : unsigned { O_EXCLUSION = 1, O_FIFO = 2 };
 
 struct Round { uint8_t acq, cs_yields, rel, pre_yields; };
 struct Contender { uint8_t flavour; std::vector<Round> rounds; bool par = false; };   // par: 'release on helper thread' rounds use parallel_resume(own.release()) instead   // flavour 0 coroutine, 1 thread
-struct Prog { std::vector<Contender> c; };
+struct Prog { std::vector<Contender> c; bool adapter = false; };   // adapter: every contender keeps its ownership in ONE shared object (BasicLockable adapter pattern: lock() stores into a member, unlock() releases it)
 
 inline Prog decode(hz::Reader &r) {
     Prog p;
@@ -30,6 +30,7 @@ inline Prog decode(hz::Reader &r) {
     }
     // trailing bytes (older replay files keep their meaning)
     for (auto &c : p.c) c.par = r.mod(4) == 3;
+    p.adapter = r.mod(3) == 1;
     return p;
 }
 
@@ -39,7 +40,7 @@ inline std::string describe(const Prog &p) {
     static const char *rel_c[] = {"release() discarded", "ownership destroyed", "co_await release()", "release on helper thread"};
     static const char *rel_t[] = {"release() discarded", "ownership destroyed", "release() kept, cleared later", "release on helper thread"};
     hz::Desc d;
-    d << (unsigned)p.c.size() << " contenders;";
+    d << (unsigned)p.c.size() << " contenders" << (p.adapter ? " keeping their ownership in one shared object (lock/unlock adapter)" : "") << ";";
     for (size_t i = 0; i < p.c.size(); i++) {
         d << " C" << (unsigned)i << (p.c[i].flavour ? "(thread):" : "(coroutine):");
         for (auto &x : p.c[i].rounds)
@@ -61,6 +62,7 @@ struct Ctx {
     const Prog *prog = nullptr;
     unsigned oracle = 0;
     int holder = -1;                 // protected by mx (if mx works)
+    cocls::mutex::ownership guard;   // adapter mode: the ownership of whoever holds the mutex (protected by mx)
     std::vector<std::vector<Req>> reqs;
     unsigned long cs_entries = 0;    // protected by mx
 };
@@ -114,18 +116,21 @@ inline cocls::async<void> contender_coro(Ctx &ctx, int id) {
         const Round &x = c.rounds[k];
         Req &rq = ctx.reqs[id][k];
         hz::upoints(x.pre_yields);
-        cocls::mutex::ownership own;
+        cocls::mutex::ownership local;
+        cocls::mutex::ownership &own = ctx.prog->adapter ? ctx.guard : local;
         if (x.acq == 2) {
             rq.is_try = true;
             rq.t_begin = hz::tick();
-            own = ctx.mx.try_lock();
+            cocls::mutex::ownership got = ctx.mx.try_lock();
             rq.t_susp = hz::tick();
-            rq.try_ok = (bool)own;
-            if (!own) { rq.t_end = hz::tick(); continue; }
+            rq.try_ok = (bool)got;
+            if (!got) { rq.t_end = hz::tick(); continue; }
+            own = std::move(got);
         } else {
             LockAw aw{ctx.mx.lock(), &rq, &cs};
-            own = co_await aw;
-            HZ_CHECK((bool)own, "co_await lock() returned an empty ownership");
+            cocls::mutex::ownership got = co_await aw;
+            HZ_CHECK((bool)got, "co_await lock() returned an empty ownership");
+            own = std::move(got);
         }
         cs_body(ctx, rq, id, x.cs_yields);
         switch (x.rel) {
@@ -136,7 +141,8 @@ inline cocls::async<void> contender_coro(Ctx &ctx, int id) {
                     cocls::mutex::ownership named;
                     own = std::move(named);
                     HZ_CHECK(!named, "after 'own = std::move(named)' the source holds a mutex (the overwritten ownership was parked in it instead of being released)");
-                    HZ_CHECK(!own, "after assigning an empty ownership the target still owns the mutex");
+                    // (in adapter mode the shared object belongs to the next owner as soon as the mutex is released: not read)
+                    if (!ctx.prog->adapter) HZ_CHECK(!own, "after assigning an empty ownership the target still owns the mutex");
                 }
                 else own = cocls::mutex::ownership();
                 break;
@@ -154,14 +160,16 @@ inline void contender_thread(Ctx &ctx, int id) {
         const Round &x = c.rounds[k];
         Req &rq = ctx.reqs[id][k];
         hz::upoints(x.pre_yields);
-        cocls::mutex::ownership own;
+        cocls::mutex::ownership local;
+        cocls::mutex::ownership &own = ctx.prog->adapter ? ctx.guard : local;
         if (x.acq == 2) {
             rq.is_try = true;
             rq.t_begin = hz::tick();
-            own = ctx.mx.try_lock();
+            cocls::mutex::ownership got = ctx.mx.try_lock();
             rq.t_susp = hz::tick();
-            rq.try_ok = (bool)own;
-            if (!own) { rq.t_end = hz::tick(); continue; }
+            rq.try_ok = (bool)got;
+            if (!got) { rq.t_end = hz::tick(); continue; }
+            own = std::move(got);
         } else if (x.acq == 0) {
             rq.t_begin = hz::tick();
             own = ctx.mx.lock().wait();
@@ -189,7 +197,8 @@ inline void contender_thread(Ctx &ctx, int id) {
                     cocls::mutex::ownership named;
                     own = std::move(named);
                     HZ_CHECK(!named, "after 'own = std::move(named)' the source holds a mutex (the overwritten ownership was parked in it instead of being released)");
-                    HZ_CHECK(!own, "after assigning an empty ownership the target still owns the mutex");
+                    // (in adapter mode the shared object belongs to the next owner as soon as the mutex is released: not read)
+                    if (!ctx.prog->adapter) HZ_CHECK(!own, "after assigning an empty ownership the target still owns the mutex");
                 }
                 else own = cocls::mutex::ownership();
                 break;
@@ -270,11 +279,12 @@ inline void run(hz::Reader &r, unsigned oracle) {
     hz::count(0, waited); hz::count(1, tries); hz::count(2, grants);
     unsigned par = 0; for (auto &c : p.c) if (c.par) for (auto &x : c.rounds) if (x.rel == 3) par++;
     hz::count(3, par);
+    hz::count(4, p.adapter ? 1 : 0);
 }
 
 static const char *const class_names[] = {
     "no-waiter/no-preemption", "no-waiter/preempted-in-library", "1-waiter/no-preemption", "1-waiter/preempted-in-library",
     "2+waiters/no-preemption", "2+waiters/preempted-in-library"};
-static const char *const counter_names[] = {"requests_that_waited", "try_lock_calls", "grants", "releases_through_parallel_resume"};
+static const char *const counter_names[] = {"requests_that_waited", "try_lock_calls", "grants", "releases_through_parallel_resume", "cases_with_shared_ownership_object"};
 
 } // namespace scen_mutex
